@@ -210,4 +210,8 @@ func gen(r *Rng, tier string, emit func(c Sx)) {
 	for i := 0; i < m; i++ {
 		emitV2(genCaseV2(r2), emit)
 	}
+	// partial re-import after a restart, then a competing block
+	for i := 0; i < m/2+1; i++ {
+		emitV2(genForkCase(r2), emit)
+	}
 }
